@@ -958,6 +958,10 @@ func (fr *Frame) execNext(i *ssa.Next) {
 		fr.reach = vc.define("next.taken", SBool, and(saved, okv.T))
 		fr.ghostAfter("next", "", map[string]*Val{"k": k, "v": v})
 		fr.reach = saved
+		// `after rangedone`: the range is exhausted (every key of the map was visited)
+		fr.reach = vc.define("next.done", SBool, and(saved, not(okv.T)))
+		fr.ghostAfter("rangedone", "", map[string]*Val{})
+		fr.reach = saved
 	}
 	fr.onRangeNext(rng, i, okv, k, v)
 }
